@@ -454,3 +454,80 @@ def chunk_codec_facts(run):
             ok = any(isinstance(c, ast.Call) and (dotted(c.func) or "").endswith("parseLeader") for st in n.body for c in ast.walk(st))
     facts.append(("chunk:last-chunk-trailers", ok, run.site(parse), "" if ok else "the zero-size chunk does not parse trailers with parseLeader"))
     return facts
+
+
+# --------------------------------------------------------------- C13.R1b
+def take_consume_facts(run, f, buffers):
+    """Every take `X = buf[:K]` is followed (same block) by the consumption of exactly that extent `del buf[:K]`;
+    a whole-buffer consumption `del buf[:]` is preceded by a whole-buffer take."""
+    facts = []
+    for n in walk_local(f.node):
+        blk = None
+        p = parent(n)
+        for field in ("body", "orelse", "finalbody"):
+            b = getattr(p, field, None)
+            if isinstance(b, list) and n in b:
+                blk = b
+        if blk is None:
+            continue
+        if isinstance(n, ast.Assign) and isinstance(n.value, ast.Subscript) and dotted(n.value.value) in buffers \
+                and isinstance(n.value.slice, ast.Slice) and n.value.slice.lower is None and n.value.slice.upper is not None:
+            k = unparse(n.value.slice.upper)
+            buf = dotted(n.value.value)
+            nxt = [s for s in blk[blk.index(n) + 1:] if isinstance(s, ast.Delete) and isinstance(s.targets[0], ast.Subscript)
+                   and dotted(s.targets[0].value) == buf]
+            got = unparse(nxt[0].targets[0].slice) if nxt else None
+            ok = got == ":" + k
+            facts.append(("take-consume:%s[:%s]" % (buf, k), ok, run.site(f, n),
+                          "" if ok else "`%s` takes %s[:%s] but the following consumption is %s[%s]: bytes beyond (or short of) the token are removed "
+                          "from the buffer, so what was already received of the next message is lost" % (unparse(n), buf, k, buf, got)))
+        if isinstance(n, ast.Delete) and isinstance(n.targets[0], ast.Subscript) and dotted(n.targets[0].value) in buffers \
+                and isinstance(n.targets[0].slice, ast.Slice) and n.targets[0].slice.lower is None and n.targets[0].slice.upper is None:
+            buf = dotted(n.targets[0].value)
+            prev = blk[:blk.index(n)]
+            ok = any(("%s[:]" % buf) in unparse(s) or ("(%s)" % buf) in unparse(s) for s in prev[-2:])
+            facts.append(("consume-all:%s" % buf, ok, run.site(f, n),
+                          "" if ok else "`%s` empties the buffer without the whole buffer having been taken just before" % unparse(n)))
+    return facts
+
+
+# --------------------------------------------------------------- C13.R4
+def subparser_facts(run, f):
+    """A sub-parser generator that is advanced inside a wait loop (a loop containing `yield None`) must not be re-created on
+    every resumption: its creation is outside that loop, or guarded by `<name> is None`."""
+    facts = []
+    for n in walk_local(f.node):
+        if isinstance(n, ast.Assign) and isinstance(n.targets[0], ast.Name) and isinstance(n.value, ast.Call):
+            callee = (dotted(n.value.func) or "").split(".")[-1]
+            if not callee.startswith("parse"):
+                continue
+            name = n.targets[0].id
+            # innermost enclosing loop of the creation
+            loop = parent(n)
+            guards = []
+            while loop is not None and not isinstance(loop, (ast.While, ast.For)):
+                if isinstance(loop, ast.If):
+                    guards.append(unparse(loop.test))
+                loop = parent(loop)
+            if loop is None or loop is f.node:
+                facts.append(("subparser:%s:%s" % (name, callee), True, run.site(f, n), ""))
+                continue
+            # does that same loop (not a nested one) wait and advance the generator?
+            waits = advances = False
+            stack = list(loop.body)
+            while stack:
+                x = stack.pop()
+                if isinstance(x, (ast.While, ast.For, ast.FunctionDef, ast.Lambda)):
+                    continue
+                if isinstance(x, ast.Yield) and (x.value is None or getattr(x.value, "value", 0) is None):
+                    waits = True
+                if isinstance(x, ast.Call) and dotted(x.func) == "next" and x.args and dotted(x.args[0]) == name:
+                    advances = True
+                stack.extend(ast.iter_child_nodes(x))
+            guarded = any(g.replace(" ", "") in ("%sisNone" % name, "not%s" % name) for g in guards)
+            ok = not (waits and advances) or guarded
+            facts.append(("subparser:%s:%s" % (name, callee), ok, run.site(f, n),
+                          "" if ok else "`%s` is created inside the very loop that waits (`yield None`) and advances it: after every wait a fresh %s "
+                          "is made and whatever the previous one had already consumed from the buffer is forgotten, so the result depends on where "
+                          "the input was split" % (unparse(n), callee)))
+    return facts
